@@ -714,7 +714,6 @@ fn run_c13_conformance(tier: &str, seed: u64, threads: usize) -> RealReport {
             s.tier == Tier::Lib
                 && !s.lane.contains("early-exit")
                 && !s.lane.contains("expr-token")
-                && !s.lane.contains("divider")
                 && s.docs[0].tests.iter().all(|t| real_code(&s.sim.programs[&t.nonce]).is_some())
         })
         .collect();
